@@ -662,6 +662,15 @@ theorem text_without_marker_unchanged (sp : Name → List Char) (hsp : ∀ n, Na
     scan .norm (renderItems sp l) = renderItems sp l := by
   rw [scan_render sp hsp l (starNotLast_of_allNB hl), List.filter_eq_self.mpr hl]
 
+/-- nothing is lost by reading the text as a list of items: two item lists with the same text
+    are the same list (names: not empty, no `*`, `,`, `=`, white space; distinct names are spelled
+    differently) - in particular the `def` header and the `_call(...)` argument list Python
+    compiles determine the builder's `sigSpecs` / `invocationSpecs` -/
+theorem text_determines_items (sp : Name → List Char) (hsp : ∀ n, IdentText (sp n))
+    (hinj : ∀ n m, sp n = sp m → n = m) (l l' : List Spec)
+    (h : renderItems sp l = renderItems sp l') : l = l' :=
+  renderItems_inj sp hsp hinj l l' h
+
 /-- the character-level telling against the source as it is NOW: for each of the 36 builder
     shapes of the regenerated table, `'(' + ', '.join(items) + ')'` is the text `get_sig_str`
     returned, and the regex scanner applied to it, minus the parentheses, is the text
@@ -796,6 +805,9 @@ example : scan .norm "(a, *args, k=k, **kw)".toList = "(a, *args, k=k, **kw)".to
 example : scan .norm "(* \t ,  k=k)".toList = "(k=k)".toList := by decide
 example : scan .norm "(a, *)".toList = "(a, *)".toList := by decide
 example : NameText "kwargs".toList := ⟨by decide, by decide⟩
+example : IdentText "_call".toList := ⟨by decide, by decide⟩
+example : splitItems [] "p1, *p7, p4=p4, **p9".toList =
+    ["p1".toList, "*p7".toList, "p4=p4".toList, "**p9".toList] := by decide
 example : renderItems (fun n => ['p', Char.ofNat (48 + n)]) (FB.fromFunc exF).invocationSpecs =
     "p1, p2, p3, *p7, p4=p4, p5=p5, **p9".toList := by decide
 
